@@ -39,6 +39,10 @@ def call(recv, m, *args):
     return ('call', ('dot', recv, m), list(args))
 
 
+def fcall(f, *args):
+    return ('call', I(f), list(args))
+
+
 ZERO = ('bin', '+', N(0), N(0))   # a computed 0 (a literal initialiser would be a Go-native int, see F-C20-f)
 
 TEMPLATES = {
@@ -119,8 +123,42 @@ TEMPLATES = {
         tag(b"p", [text(b"before")]),
         tag(b"p", [buf(('dot', call(I(b"JSON"), b"parse", I(b"word")), b"k"))]),
     ],
+    # ---- templates whose output depends on the CONTEXT of the render, through the harness's context-aware
+    # template functions (harness/c08ctx.go): who() / cnum(x) / cget(k) / alive() / Req.user() / Req.plus(x)
+    # answer from the call's context, meet() is a bare stagger point
+    # straight line: several different functions, some used twice
+    "ctx/line": [
+        tag(b"p", [buf(fcall(b"who")), text(b"|"), buf(fcall(b"cnum", I(b"a"))), text(b"|"), buf(fcall(b"meet")),
+                   text(b"|"), buf(fcall(b"who")), text(b"|"), buf(fcall(b"cget", I(b"key"))), text(b"|"),
+                   buf(fcall(b"alive")), text(b"|"), buf(call(I(b"Req"), b"user")), text(b"|"),
+                   buf(fcall(b"cnum", N(1000)))]),
+        tag(b"b", [buf(I(b"title"))]),
+    ],
+    # context functions called in a loop, mixed with data and a running sum
+    "ctx/loop": [
+        code(var(b"total", ZERO)),
+        tag(b"ul", [('each', b"v", b"i", I(b"items"), [
+            code(assign(I(b"total"), ('bin', '+', I(b"total"), fcall(b"cnum", I(b"v"))))),
+            tag(b"li", [buf(fcall(b"who")), text(b":"), buf(fcall(b"cnum", I(b"v"))), text(b":"),
+                        buf(fcall(b"cget", ('bin', '+', S(b"k"), ('bin', '%', I(b"i"), N(4))))), buf(fcall(b"meet"))]),
+        ])]),
+        tag(b"p", [buf(I(b"total")), text(b" for "), buf(call(I(b"Req"), b"user")), text(b" "), buf(fcall(b"alive"))]),
+    ],
+    # context functions inside a mixin, in the mixin's block and in attributes
+    "ctx/mixin": [
+        ('mixin', b"badge", [b"k"], [
+            tag(b"span", [buf(fcall(b"cget", I(b"k"))), text(b"@"), buf(fcall(b"who")), ('mixinblock',)],
+                attrs=[(b"title", fcall(b"who"), True)])]),
+        ('each', b"k", None, I(b"keys"), [
+            ('call', b"badge", [I(b"k")], [], [
+                tag(b"i", [buf(call(I(b"Req"), b"plus", I(b"n"))), text(b"/"), buf(I(b"k"))])]),
+        ]),
+        ('call', b"badge", [S(b"k0")], [], []),
+        tag(b"q", [buf(fcall(b"who")), buf(fcall(b"meet")), buf(fcall(b"alive"))]),
+    ],
 }
 TNAMES = sorted(TEMPLATES)
+CTX_TNAMES = [t for t in TNAMES if t.startswith("ctx/")]
 FILES = {hx(k): hx(tmpl.pug_file(TEMPLATES[k])) for k in TNAMES}
 
 WORDS = [b"ab", b"x", b"Hello", b"<b>&\"'", b"", b"z9", b"\xc3\xa9t\xc3\xa9", b"a&b", b"</script>", b"k1 k2"]
@@ -149,7 +187,27 @@ def gen_data(rng, t):
         return {b"title": w(), b"items": [w() for _ in range(rng.randint(0, 5))]}
     if t == "fail":
         return {b"word": rng.choice([b'{"k": 7}', b'{"k": "v"}', b"{bad", b""])}
+    if t == "ctx/line":
+        return {b"a": rng.randint(0, 99), b"key": rng.choice(CTX_KEYS), b"title": w()}
+    if t == "ctx/loop":
+        return {b"items": ints(1, 8)}
+    if t == "ctx/mixin":
+        return {b"keys": [rng.choice(CTX_KEYS) for _ in range(rng.randint(0, 5))], b"n": rng.randint(0, 50)}
     return {b"x": 1}   # a template that is not loaded: not_found
+
+
+CTX_KEYS = [b"k0", b"k1", b"k2", b"k3", b"none"]
+USERS = [b"alice", b"bob", b"carol", b"dave", b"eve", b"<mallory>", b"a&b", b"\xc3\xa9ve", b""]
+
+
+def gen_ctx(rng, ratelimit, tag):
+    """What one job's context carries.  `tag` makes the contexts of one case pairwise different."""
+    user = rng.choice(USERS) + (b"#%d" % tag if rng.random() < 0.8 else b"")
+    kv = [[hx(k), hx(rng.choice(WORDS) + b"~" + user)] for k in CTX_KEYS[:4] if rng.random() < 0.8]
+    # a context that is already over: only without a rate limit (with one, Render's select between the
+    # semaphore and ctx.Done() is a coin toss when both are ready, which is outside what is compared here)
+    over = ratelimit == 0 and rng.random() < 0.12
+    return {"user": hx(user), "num": rng.randint(-50, 5000), "kv": kv, "over": over}
 
 
 def res_term(r):
@@ -204,25 +262,46 @@ class C08(Prop):
     def generate(self, rng, n, tier):
         cases = []
         for _ in range(n):
-            njobs = rng.choice([1, 2, 3, 4, 6, 8])
+            ratelimit = rng.choice([0, 0, 0, 8, 2])
+            kind = rng.random()
             jobs = []
-            for _ in range(njobs):
-                k = rng.random()
-                if k < 0.06:
-                    t = "nope/missing"
-                elif k < 0.16:
-                    t = "fail"
-                else:
-                    t = rng.choice([x for x in TNAMES if x != "fail"])
-                jobs.append({"tpl": hx(t), "data": tmpl.data_go(gen_data(rng, t))})
+            if kind < 0.45:
+                # CONTEXT STORM: overlapping renders of one context-dependent template (sometimes two or three)
+                # that differ in their context (and sometimes in their data)
+                shape = "ctx"
+                tpls = rng.sample(CTX_TNAMES, rng.choice([1, 1, 1, 2, 3]))
+                njobs = rng.choice([2, 2, 3, 4, 6, 8])
+                base = {t: gen_data(rng, t) for t in tpls}
+                for k in range(njobs):
+                    t = tpls[k % len(tpls)]
+                    d = base[t] if rng.random() < 0.5 else gen_data(rng, t)   # same data, other context
+                    jobs.append({"tpl": hx(t), "data": tmpl.data_go(d), "ctx": gen_ctx(rng, ratelimit, k)})
+            else:
+                # MIXED STORM: all templates, context-dependent or not
+                shape = "mixed"
+                njobs = rng.choice([1, 2, 3, 4, 6, 8])
+                for k in range(njobs):
+                    r = rng.random()
+                    if r < 0.06:
+                        t = "nope/missing"
+                    elif r < 0.16:
+                        t = "fail"
+                    else:
+                        t = rng.choice([x for x in TNAMES if x != "fail"])
+                    jobs.append({"tpl": hx(t), "data": tmpl.data_go(gen_data(rng, t)),
+                                 "ctx": gen_ctx(rng, ratelimit, k)})
             ngo = rng.choice([2, 2, 8, 8, 8, 32, 32])
             mode = rng.random()
-            if mode < 0.2:
+            if mode < 0.2 and shape == "mixed":
                 calls = [rng.randrange(njobs)] * ngo          # everybody renders the same job
             else:
                 calls = [rng.randrange(njobs) for _ in range(ngo)]
+                if shape == "ctx":                            # at least two different contexts meet
+                    calls[0], calls[1] = 0, 1
+            # deliberate staggering inside the harness's template functions (0 = none: free-running storm)
+            stagger = 0 if rng.random() < (0.15 if shape == "ctx" else 0.4) else rng.randrange(1, 1 << 40)
             cases.append({"files": FILES, "jobs": jobs, "calls": calls, "rounds": rng.randint(2, 5),
-                          "debug": False, "ratelimit": rng.choice([0, 0, 0, 8, 2]),
+                          "debug": False, "ratelimit": ratelimit, "stagger": stagger, "shape": shape,
                           "sseed": rng.randrange(1 << 30)})
         return cases
 
@@ -231,7 +310,7 @@ class C08(Prop):
         prefix = os.path.join(tmp, "race_%s_%d" % (tag, self._seq()))
         env = dict(os.environ, GORACE="halt_on_error=0 exitcode=0 log_path=%s" % prefix, PV_RACE_LOG=prefix,
                    TMPDIR=tmp)   # the harness's scratch engines die with the check's directory even if it crashes
-        slim = [{k: v for k, v in c.items() if k != "sseed"} for c in cases]
+        slim = [{k: v for k, v in c.items() if k not in ("sseed", "shape")} for c in cases]
         p = subprocess.run([binary, self.engine], input=json.dumps(slim).encode(), capture_output=True,
                            timeout=3000, env=env)
         if p.returncode == 0:
@@ -247,7 +326,7 @@ class C08(Prop):
         C08._n += 1
         return C08._n
 
-    def run(self, binary, cases, tmp, tier):
+    def _run_isolating(self, binary, cases, tmp):
         obss, err = self._run_batch(binary, cases, tmp, "all")
         if obss is None:
             # the process died (e.g. "fatal error: concurrent map writes"): isolate per case
@@ -261,6 +340,24 @@ class C08(Prop):
                                  "conc": [], "races": 0, "go_equal": False, "race_build": True, "procs": 0})
                 else:
                     obss.append(o[0])
+        return obss
+
+    def run(self, binary, cases, tmp, tier, attempts=None):
+        obss = self._run_isolating(binary, cases, tmp)
+        # A case is a recipe for histories, not one history: which interleaving happens is the Go scheduler's
+        # choice.  Small batches (a replay, the candidates of a shrinking step, the final run of a shrunk witness)
+        # are therefore attempted several times, and the observation kept for a case is the first attempt in which
+        # anything differed (harness flag go_equal; the verdict is still the Coq judge's, on that observation).
+        # The main stream (40+ cases) is attempted once.
+        if attempts is None:
+            attempts = max(1, min(40, 48 // max(1, len(cases))))
+        for _ in range(attempts - 1):
+            again = [i for i, o in enumerate(obss) if o.get("go_equal") and not o.get("races") and not o.get("crashed")]
+            if not again:
+                break
+            for i, o in zip(again, self._run_isolating(binary, [cases[i] for i in again], tmp)):
+                if not o.get("go_equal") or o.get("races") or o.get("crashed"):
+                    obss[i] = o
         for o in obss:
             if not o.get("crashed") and not o.get("race_build"):
                 raise BuildError("C08 harness was not built with -race", "")
@@ -334,6 +431,10 @@ class C08(Prop):
     # ---------------------------------------------------------------- shrinking
     def shrink(self, case):
         calls, jobs = case["calls"], case["jobs"]
+        if not case.get("stagger"):
+            # a free-running storm: first try the same case with deliberate staggering, which makes the
+            # overlaps (and so the witness) far more repeatable
+            yield dict(case, stagger=(case.get("sseed", 0) << 8) | 1)
         if case["rounds"] > 1:
             yield dict(case, rounds=1)
             yield dict(case, rounds=case["rounds"] - 1)
@@ -361,7 +462,7 @@ class C08(Prop):
         obs = {"cases": 0, "concurrent_renders": 0, "unequal_renders": 0, "race_reports": 0, "crashed": 0,
                "first_race_report": None, "unequal_classes": {}}
         try:
-            obss = self.run(binary, cases, tmp, tier)
+            obss = self.run(binary, cases, tmp, tier, attempts=1)
         except BuildError as e:
             obs["error"] = e.what
             obss = []
